@@ -17,7 +17,7 @@ pub fn edge_driver(out: &str, seed: u64, n: u64) {
     let mut r = Recorder::new(&format!("{}/edge.trace", out), base_setup());
     let (mut nbk, mut nkill, mut nclose, mut nutil) = (0u64, 0u64, 0u64, 0u64);
     for k in 0..n {
-        match k % 12 {
+        match k % 13 {
             0 => {
                 // ---- exact wipe: the sole borrower drew every deposited token (or all but delta), no fees, no time (or a
                 // second), empty or tiny insurance; collateral made worthless; bankruptcy. Uncovered loss =, <, > deposits.
@@ -25,7 +25,7 @@ pub fn edge_driver(out: &str, seed: u64, n: u64) {
                 let x: u64 = *pick(&mut rng, &[1_000_000u64, 123_456_789, 7, 50_000_000_000]);
                 // (loss = deposits, deposits - 1, deposits - 2; insurance empty, a unit, half, all, more than the debt)
                 let combos: [(u64, u64); 8] = [(0, 0), (1, 0), (0, 1), (0, x.saturating_add(5)), (2, 0), (0, x / 2), (0, x.saturating_mul(3)), (1, x)];
-                let (delta, ins) = combos[((k / 12) % 8) as usize];
+                let (delta, ins) = combos[((k / 13) % 8) as usize];
                 let two_lenders = rng.gen_bool(0.4);
                 let mut extra = vec![];
                 plain_bank("D1", dec, "spl", "1", json!({"ir":{"orig_fee":"0"}}), &mut extra);
@@ -512,7 +512,7 @@ pub fn edge_driver(out: &str, seed: u64, n: u64) {
                 extra.push(json!({"op":"fund","user":"U1","mint":"M.D1","amount":"4000000000000000000"}));
                 extra.push(json!({"op":"fund","user":"U1","mint":"M.C1","amount":"4000000000000000000"}));
                 r.begin(&extra);
-                let below = (k / 12) % 2 == 0;
+                let below = (k / 13) % 2 == 0;
                 r.act(json!({"op":"deposit","acct":"LP","bank":"D1","amount":50_000_000}));
                 r.act(json!({"op":"deposit","acct":"A1","bank":"C1","amount":1_000_000_000}));
                 r.act(json!({"op":"deposit","acct":"A1","bank":"D1","amount":1000}));
@@ -575,6 +575,31 @@ pub fn edge_driver(out: &str, seed: u64, n: u64) {
                     r.act(mkb(bl.saturating_add(bl / 5)));
                 }
                 r.act(json!({"op":"deposit","acct":"LP","bank":"D1","amount":1000}));
+            }
+            12 => {
+                // ---- a bank that still carries the legacy three-parameter curve (marked state injection: no instruction can
+                // create one any more): interest accrues on it, anyone migrates it to the seven-point form, interest accrues on
+                // the migrated curve; a second migration does nothing
+                let mut extra = vec![];
+                plain_bank("D1", 6, "spl", "1", json!({"ir":{"orig_fee":"0","ins_ir": *pick(&mut rng, &["0", "0.1"]),"grp_fixed": *pick(&mut rng, &["0", "0.01"])}}), &mut extra);
+                plain_bank("C1", 6, "spl", "1", json!({"aw_init":"1","aw_maint":"1"}), &mut extra);
+                extra.push(json!({"op":"fund","user":"U9","mint":"M.D1","amount":"4000000000000000000"}));
+                extra.push(json!({"op":"fund","user":"U1","mint":"M.D1","amount":"4000000000000000000"}));
+                extra.push(json!({"op":"fund","user":"U1","mint":"M.C1","amount":"4000000000000000000"}));
+                r.begin(&extra);
+                let (opt, plat, max) = *pick(&mut rng, &[("0.8", "0.1", "3"), ("0.5", "0.05", "1"), ("0.9", "0.39", "0.4"), ("0.333", "0.0333", "9.99"), ("0.01", "0.001", "0.7"), ("0.99", "2", "10"), ("0.9", "0.4", "0.4"), ("0.123456789", "0.987654321", "1.23456789")]);
+                r.act(json!({"op":"deposit","acct":"LP","bank":"D1","amount":1_000_000_000u64}));
+                r.act(json!({"op":"deposit","acct":"A1","bank":"C1","amount":"1000000000000000"}));
+                r.act(json!({"op":"inject_bank","bank":"D1","legacy":{"opt":opt,"plateau":plat,"max":max}}));
+                r.act(json!({"op":"borrow","acct":"A1","bank":"D1","amount": 100_000_000u64 * *pick(&mut rng, &[1u64, 5, 8, 9])}));
+                r.act(json!({"op":"tick","dt": *pick(&mut rng, &[3600i64, 2_592_000])}));
+                r.act(json!({"op":"accrue","bank":"D1"}));
+                r.act(json!({"op":"migrate_curve","bank":"D1"}));
+                r.act(json!({"op":"tick","dt": *pick(&mut rng, &[3600i64, 2_592_000])}));
+                r.act(json!({"op":"accrue","bank":"D1"}));
+                r.act(json!({"op":"migrate_curve","bank":"D1"}));
+                r.act(json!({"op":"repay","acct":"A1","bank":"D1","amount":0,"all":true}));
+                r.act(json!({"op":"configure_interest","bank":"D1","ir":{"ins_ir":"0.05"}}));
             }
             _ => {
                 // ---- a solvent account in a collateral bank whose collateral-value cap is lowered far below its deposits
